@@ -16,6 +16,8 @@
 (***************************************************************************)
 EXTENDS Integers, Sequences, FiniteSets, TLC, Json
 
+CONSTANT Deep       \* FALSE: the lattice of the quick tier; TRUE: every integer z and more transverse points (thorough)
+
 D == 10                                          \* lengths are k / D metres
 \* species mixes: sequences of <<charge Z, density units n, a, c>>  (density unit 1e18 m^-3)
 Mixes == << << <<1, 4, 3, 0>> >>,                                           \* one ion species, constant stopping rate
@@ -26,9 +28,9 @@ Mixes == << << <<1, 4, 3, 0>> >>,                                           \* o
             << <<9, 1, 3, 0>>, <<10, 1, 1, 1>>, <<8, 1, 0, 2>> >> >>        \* three charge states of neon, listed out of order
 \* beam shapes: <<sigma*D, tan(alpha_x)*D, tan(alpha_y)*D, length*D, clamp on?, clamp_sigma>>
 Shapes == << <<1, 0, 0, 40, FALSE, 5>>, <<1, 2, 0, 40, TRUE, 2>>, <<2, 1, 3, 30, TRUE, 3>>, <<1, 1, 1, 20, FALSE, 5>> >>
-Xs == {0, 1, -3, 6}
-Ys == {0, -2, 4}
-Zs == {-1, 0, 5, 20, 30, 31, 40, 41}
+Xs == IF Deep THEN {-7, -3, -1, 0, 1, 2, 6} ELSE {0, 1, -3, 6}
+Ys == IF Deep THEN {-4, -2, 0, 1, 4} ELSE {0, -2, 4}
+Zs == IF Deep THEN -1..41 ELSE {-1, 0, 5, 20, 30, 31, 40, 41}
 \* attenuator step in centimetres: commensurate with every beam length (50), and not (30, 7)
 StepsCm == {50, 30, 7}
 
